@@ -68,6 +68,8 @@ func ge(a, b lin) cons { return le(b, a) }                                      
 func eqc(a, b lin) []cons { return []cons{le(a, b), le(b, a)} }                           // a == b
 
 type LB struct {
+	fieldReps     map[string]ssa.Value
+	fieldWritten  map[string]bool
 	extra         []cons             // facts valid on entry to the function (proved at every call site)
 	convSide      map[*ssa.Convert]int
 	side          map[*ssa.BinOp]int // 0 unknown, 1 proving, 2 proven, 3 failed
@@ -144,6 +146,9 @@ func lenBase(v ssa.Value) ssa.Value {
 func (lb *LB) linOf(v ssa.Value) lin {
 	if k, ok := constInt(v); ok {
 		return linConst(k)
+	}
+	if r := lb.fieldRep(v); r != nil {
+		v = r
 	}
 	switch x := v.(type) {
 	case *ssa.BinOp:
@@ -233,6 +238,70 @@ func (lb *LB) convOK(x *ssa.Convert) bool {
 		lb.convSide[x] = 3
 	}
 	return ok
+}
+
+// fieldRep: all loads of the same field of the same base object denote one value when the function
+// (and its callees, per the effect summaries) never writes that field: returns a representative load.
+func (lb *LB) fieldRep(v ssa.Value) ssa.Value {
+	ld, ok := v.(*ssa.UnOp)
+	if !ok || ld.Op != token.MUL {
+		return nil
+	}
+	fa, ok := ld.X.(*ssa.FieldAddr)
+	if !ok {
+		return nil
+	}
+	if _, isParam := fa.X.(*ssa.Parameter); !isParam {
+		return nil
+	}
+	if _, _, isInt := intKind(ld.Type()); !isInt {
+		return nil
+	}
+	if lb.fieldReps == nil {
+		lb.fieldReps = map[string]ssa.Value{}
+		lb.fieldWritten = map[string]bool{}
+		f := ld.Parent()
+		instrsOf(f, func(_ *ssa.BasicBlock, in ssa.Instruction) {
+			if st, ok := in.(*ssa.Store); ok {
+				if fa2, ok := st.Addr.(*ssa.FieldAddr); ok {
+					lb.fieldWritten[fmt.Sprintf("%p.%d", fa2.X, fa2.Field)] = true
+				}
+			}
+		})
+		// callees writing the receiver's fields
+		if fxCache != nil {
+			for r := range fxCache.Writes(f) {
+				if r.Kind == rkParam {
+					if r.Field == "" {
+						lb.fieldWritten[fmt.Sprintf("param%d.*", r.Idx)] = true
+					} else {
+						lb.fieldWritten[fmt.Sprintf("param%d.%s", r.Idx, r.Field)] = true
+					}
+				}
+			}
+		}
+	}
+	key := fmt.Sprintf("%p.%d", fa.X, fa.Field)
+	if lb.fieldWritten[key] {
+		return nil
+	}
+	if fxCache != nil {
+		f := ld.Parent()
+		for i, prm := range f.Params {
+			if ssa.Value(prm) == fa.X {
+				if lb.fieldWritten[fmt.Sprintf("param%d.*", i)] || lb.fieldWritten[fmt.Sprintf("param%d.%s", i, fieldName(fa.X.Type(), fa.Field))] {
+					return nil
+				}
+			}
+		}
+	} else {
+		return nil
+	}
+	if r, ok := lb.fieldReps[key]; ok {
+		return r
+	}
+	lb.fieldReps[key] = v
+	return v
 }
 
 // sideOK: the unsigned subtraction x.X - x.Y provably does not wrap at its own program point
@@ -433,6 +502,18 @@ func (lb *LB) inductionLower(phi *ssa.Phi) (lin, bool) {
 			}
 			continue
 		}
+		// phi + v with v >= 0 (e.g. a byte count returned by Read)
+		if bo, ok := e.(*ssa.BinOp); ok && bo.Op == token.ADD {
+			var inc ssa.Value
+			if bo.X == ssa.Value(phi) {
+				inc = bo.Y
+			} else if bo.Y == ssa.Value(phi) {
+				inc = bo.X
+			}
+			if inc != nil && lb.incNonneg(inc) {
+				continue
+			}
+		}
 		if init != nil && init != e {
 			ia, ib := lb.linOf(init), lb.linOf(e)
 			if len(ia.c) == 0 && len(ib.c) == 0 {
@@ -454,6 +535,20 @@ func (lb *LB) inductionLower(phi *ssa.Phi) (lin, bool) {
 		return lin{}, false
 	}
 	return l, true
+}
+
+// incNonneg: an increment that is never negative (syntactically, or a count returned by a Read/copy)
+func (lb *LB) incNonneg(v ssa.Value) bool {
+	if lb.nonneg(v, 0) {
+		return true
+	}
+	for _, cn := range lb.defFacts(lvar{0, v}) {
+		// fact "-v <= 0"
+		if len(cn.l.c) == 1 && cn.l.c[lvar{0, v}] == -1 && cn.l.k <= 0 && !cn.ne {
+			return true
+		}
+	}
+	return false
 }
 
 // sameBackEdges: both phis take their increment on exactly the same incoming edges
@@ -640,6 +735,9 @@ func (lb *LB) defFacts(v lvar) []cons {
 		}
 		if l, ok := lb.inductionUpper(x); ok {
 			out = append(out, le(me, l))
+		}
+		for _, inv := range lb.loopUpperInvariants(x) {
+			out = append(out, inv)
 		}
 		// lockstep induction: two counters of one loop header advancing once per back edge
 		if iv, ok := inductionOf(x); ok && iv.step != 0 {
@@ -1506,4 +1604,83 @@ func (lb *LB) loopLenInvariant(phi *ssa.Phi) (int64, bool) {
 	}
 	loopLenCache[phi] = k
 	return k, true
+}
+
+// loopUpperInvariants: inductive invariants phi <= L for an integer loop-header phi, with candidate
+// bounds L taken from the loop's controlling comparison (e.g. n < len(buf) suggests n <= len(buf)).
+// Base: every entry value <= L; step: assuming phi <= L and the facts on the back edge, next <= L.
+var loopUpperCache = map[*ssa.Phi][]cons{}
+var loopUpperBusy = map[*ssa.Phi]bool{}
+
+func (lb *LB) loopUpperInvariants(phi *ssa.Phi) []cons {
+	if r, ok := loopUpperCache[phi]; ok {
+		return r
+	}
+	if loopUpperBusy[phi] {
+		return nil
+	}
+	h := phi.Block()
+	isLoop := false
+	for _, p := range h.Preds {
+		if h.Dominates(p) {
+			isLoop = true
+		}
+	}
+	if !isLoop {
+		return nil
+	}
+	loopUpperBusy[phi] = true
+	defer delete(loopUpperBusy, phi)
+	var out []cons
+	me := linVar(lvar{0, phi})
+	var cands []lin
+	// comparisons involving phi anywhere in the loop-controlling conditions of the header chain
+	for _, b := range phi.Parent().Blocks {
+		if !(b == h || h.Dominates(b)) {
+			continue
+		}
+		ifi, ok := lastIf(b)
+		if !ok {
+			continue
+		}
+		bo, ok := ifi.Cond.(*ssa.BinOp)
+		if !ok {
+			continue
+		}
+		if bo.X == ssa.Value(phi) && (bo.Op == token.LSS || bo.Op == token.LEQ || bo.Op == token.NEQ || bo.Op == token.GEQ || bo.Op == token.EQL) {
+			cands = append(cands, lb.linOf(bo.Y))
+		}
+		if bo.Y == ssa.Value(phi) && (bo.Op == token.GTR || bo.Op == token.GEQ || bo.Op == token.NEQ || bo.Op == token.LEQ || bo.Op == token.EQL) {
+			cands = append(cands, lb.linOf(bo.X))
+		}
+	}
+	for _, L := range cands {
+		if _, dep := L.c[lvar{0, phi}]; dep {
+			continue
+		}
+		goal := le(me, L)
+		ok := true
+		for i, e := range phi.Edges {
+			pred := h.Preds[i]
+			g := le(lb.linOf(e), L)
+			if h.Dominates(pred) {
+				// step: hypothesis phi <= L
+				facts := append(lb.edgeFacts(pred, h), goal)
+				if !lb.proveWith([]cons{g}, append(facts, lb.extra...), map[lvar]lin{}, 2) {
+					ok = false
+					break
+				}
+			} else {
+				if !lb.proveWith([]cons{g}, append(lb.edgeFacts(pred, h), lb.extra...), map[lvar]lin{}, 2) {
+					ok = false
+					break
+				}
+			}
+		}
+		if ok {
+			out = append(out, goal)
+		}
+	}
+	loopUpperCache[phi] = out
+	return out
 }
